@@ -742,7 +742,9 @@ fn zero_density<I: IdealGas + 'static>(cfg: &Config, ig: Arc<I>, t: f64, x: &[f6
         let h_res = st.residual_molar_enthalpy().to_reduced() / t;
         let dpdv_rel = st.dp_dv(Contributions::Residual).to_reduced() / st.dp_dv(Contributions::IdealGas).to_reduced();
         let tot_minus_ig = (st.pressure(Contributions::Total).to_reduced() - p_ig) / p_ig;
-        rows.push(json!({"frac": f, "z_res": z_res, "a_res": a_res, "s_res": s_res, "mu_res": mu_res, "cv_res": cv_res, "h_res": h_res,
+        // magnitude of the individual contributions (round-off scale of the sum)
+        let a_abs: f64 = st.residual_helmholtz_energy_contributions().iter().map(|(_, a)| a.to_reduced().abs()).sum::<f64>() / (ntot * t);
+        rows.push(json!({"frac": f, "a_abs": a_abs, "z_res": z_res, "a_res": a_res, "s_res": s_res, "mu_res": mu_res, "cv_res": cv_res, "h_res": h_res,
             "dpdv_res_rel": dpdv_rel, "p_tot_minus_ig_rel": tot_minus_ig}));
     }
     json!({"config": cfg.name, "T": t, "x": x, "rho_max": rho_max, "rows": rows})
@@ -980,13 +982,32 @@ fn main() {
                 None => skipped += 1,
             }
         }
-        let nz = if full { 3 } else { 1 };
-        for _ in 0..nz {
+    }
+    // zero-density sweeps (support search, no Coq goals): EVERY residual configuration of the shared set (core set in the quick tier),
+    // i.e. every contribution / association topology / closed-form branch the configurations were chosen to reach; regular and
+    // trace compositions; temperatures over the configuration's range incl. its lower end
+    let zcfgs: Vec<Config> = configs::all(full)
+        .into_iter()
+        .filter(|c| match &only {
+            Some(o) => &c.name == o,
+            None => full || c.core,
+        })
+        .collect();
+    let nz = if full { 4 } else { 2 };
+    for cfg in zcfgs.iter() {
+        for k in 0..nz {
             let (_, recs) = pick_ig(&mut rng, cfg.ncomp, &jb_all, &dpool, true);
-            let t = (cfg.t_scale * rng.range(0.6, 2.5)).clamp(150.0, 1500.0);
-            let x = sample_x(&mut rng, cfg.ncomp);
+            let t = match k {
+                0 => (cfg.t_scale * rng.range(0.6, 2.5)).clamp(150.0, 1500.0),
+                _ => (cfg.t_scale * rng.range(0.35, 0.8)).clamp(150.0, 1500.0),
+            };
+            let x = if k % 2 == 0 { sample_x(&mut rng, cfg.ncomp) } else { sample_x_trace(&mut rng, cfg.ncomp) };
             if let Ig::J(m) = build(&recs) {
-                zero_json.push(zero_density(cfg, m, t, &x));
+                let r = std::panic::catch_unwind(std::panic::AssertUnwindSafe(|| zero_density(cfg, m, t, &x)));
+                zero_json.push(match r {
+                    Ok(v) => v,
+                    Err(_) => json!({"config": cfg.name, "T": t, "x": x, "rho_max": null, "rows": [], "panic": true}),
+                });
             }
         }
     }
